@@ -90,7 +90,7 @@ func (s *Solver) ask(l string) []string {
 }
 
 func (s *Solver) define(t *Term) {
-	if t.op == "const" || s.defined[t.id] {
+	if t.op == "const" || t.op == "bigconst" || s.defined[t.id] {
 		return
 	}
 	// iterative post-order to avoid deep host recursion on long ite chains
@@ -101,14 +101,14 @@ func (s *Solver) define(t *Term) {
 	stk := []fr{{t, 0}}
 	for len(stk) > 0 {
 		top := &stk[len(stk)-1]
-		if top.t.op == "const" || s.defined[top.t.id] {
+		if top.t.op == "const" || top.t.op == "bigconst" || s.defined[top.t.id] {
 			stk = stk[:len(stk)-1]
 			continue
 		}
 		if top.i < len(top.t.args) {
 			a := top.t.args[top.i]
 			top.i++
-			if a.op != "const" && !s.defined[a.id] {
+			if a.op != "const" && a.op != "bigconst" && !s.defined[a.id] {
 				stk = append(stk, fr{a, 0})
 			}
 			continue
@@ -521,7 +521,7 @@ func Standalone(pcs []*Term, extra *Term) string {
 	var defs []*Term
 	var walk func(t *Term)
 	walk = func(t *Term) {
-		if t.op == "const" || seen[t.id] {
+		if t.op == "const" || t.op == "bigconst" || seen[t.id] {
 			return
 		}
 		seen[t.id] = true
